@@ -102,7 +102,9 @@ func c06(r *ev.Result, tier string) {
 		os.RemoveAll(base)
 	}
 	r.Rule += "; plus the HTTP seam: real full-duplex /io (and /i, /o) requests over TLS against the in-process server with the broker's gates, every admission order of the halves of {io,io}, {io,i}, {o,io}, {io,io,i} (thorough also {io,io,io}, {io,o,i,io})"
-	if !isQuick(tier) {
-		brokerRacePass(r)
-	}
+	/* Calls that really overlap (the gated exploration starts them one by
+	one): the free-running -race pass, in both tiers for this property - what
+	tells simultaneous clients apart is written and read by concurrent
+	calls. */
+	brokerRacePass(r)
 }
